@@ -47,6 +47,7 @@ type Contract struct {
 	Trusted  bool
 	Inline   bool
 	Pure     bool
+	NoSafety bool // no implicit safety obligations at all (partial correctness modulo run-time panics)
 	NoNil    bool // do not generate nil-dereference obligations (sweep mode)
 	Props    []string
 	Alloc    *Clause
@@ -92,7 +93,7 @@ type ContractFile struct {
 var clauseKeywords = map[string]bool{
 	"func": true, "requires": true, "ensures": true, "modifies": true, "let": true, "loop": true, "invariant": true,
 	"decreases": true, "unroll": true, "pred": true, "trusted": true, "inline": true, "pure": true, "props": true,
-	"iface": true, "global": true, "allocates": true, "effects": true, "at": true, "assert": true, "nonil": true,
+	"iface": true, "global": true, "allocates": true, "effects": true, "at": true, "assert": true, "nonil": true, "nosafety": true,
 	"guarded_by": true, "fresh": true, "terminates": true, "split": true,
 }
 
@@ -343,6 +344,11 @@ func parseContractFile(path, pkgPath string) (*ContractFile, error) {
 				cur.Pure = true
 			case "nonil":
 				cur.NoNil = true
+			case "nosafety":
+				// implicit run-time-panic obligations (nil, bounds, division, allocation size, shift, type assertion) are not
+				// generated for this function: its contract speaks about executions that do not panic (panics belong to C18)
+				cur.NoNil = true
+				cur.NoSafety = true
 			case "terminates":
 				cur.Terminates = true
 			case "props":
